@@ -115,6 +115,13 @@ def run(ctx):
                  [(h.name, 'fetch_sub', '1_usize') for h in r.RETURN + r.TAKE if h.path not in (r.OBJ_DROP.path, r.OBJ_TAKE.path)])
     ctx.ob('R11.2', 'users: one +1 at getter entry, -1 in the guard closure, the return helper and the take helper', table == exp, '',
            'found %s, expected %s' % (table, exp), construct='users-inventory', sites=[str(t_) for t_ in table])
+    for b, blk, op, amt in ups:
+        if op == 'fetch_sub' and b.path in [h.path for h in r.RETURN + r.TAKE]:
+            ban = prog.an(b)
+            esc = ban.reach([0], ('normal',), avoid=[blk.idx])
+            okp = not any(e in esc for e in ban.exits()['return'])
+            ctx.ob('R11.2', 'the end of an Object decrements users on every path', okp, ctx.where(b, blk.term.line),
+                   'users -= 1 is conditional: a returned / taken object can stay counted as a user forever' if not okp else '', construct='users-dec-conditional:' + b.name)
     # size inventory
     sz = []
     for b in managed_bodies(prog):
@@ -164,7 +171,9 @@ def run(ctx):
         ctx.ob('R11.2', 'size changed under the slots lock', g is not None, ctx.where(b, s.line), '', construct='size-lock:' + b.name)
     # max_size writers
     mw = sorted({b.name for b in managed_bodies(prog) for bb, i, s in r.field_writes(b, r.SLOTS, r.MAX)})
-    ctx.ob('R11.2', 'max_size written only by resize', mw == [r.RESIZE.name], '', str(mw), construct='max-writers')
+    # close() may zero the limit (a closed pool reports max_size 0 whatever a concurrent resize did)
+    cz = all(classify_write(prog.an(r.CLOSE), s) == ('=', '0_usize') for bb, i, s in r.field_writes(r.CLOSE, r.SLOTS, r.MAX))
+    ctx.ob('R11.2', 'max_size written only by resize (and zeroed by close)', set(mw) <= {r.RESIZE.name, r.CLOSE.name} and r.RESIZE.name in mw and cz, '', str(mw), construct='max-writers')
 
     ctx.not_decided += ['exactness "at every quiescent point of every history" as a numeric statement: decided is the pairing of every increment with exactly one decrement per path (with C01/C03/C09) and that no subtraction can wrap',
                         '"size exceeds max_size only as the residue of a shrink" fails as a consequence of known finding D1 (C07)']
